@@ -165,6 +165,7 @@ class Kernel:
         self.steps = 0
         self.switches = 0
         self.nstalls = 0
+        self.stall_total = 0.0
         self.threads = []
         self.by_ident = {}
         self.timers = []
@@ -261,7 +262,7 @@ class Kernel:
             nxt = self.timers[0][0] if nxt is None else min(nxt, self.timers[0][0])
         if nxt is None:
             return False
-        if nxt > self.max_time:
+        if nxt > self.max_time + min(self.stall_total, 1000.0):
             self.abort_reason = self.abort_reason or "time-cap"
             return False
         if nxt > self.now:
@@ -337,6 +338,8 @@ class Kernel:
 
     def _stall(self, dur):
         self.nstalls += 1
+        # injected slowness must not be mistaken for a livelock: the caps grow with it
+        self.stall_total += dur
         self.block(lambda: False, dur, "stall")
 
     def point(self, why=""):
@@ -467,7 +470,7 @@ class Kernel:
             self.sp += 1
             if self.aborting:
                 raise SimAbort()
-            if self.steps > self.max_steps:
+            if self.steps > self.max_steps + 150 * min(self.stall_total, 1000.0):
                 self.abort("step-cap")
                 raise SimAbort()
             if self.line_hook is not None:
